@@ -674,6 +674,26 @@ Definition with_meta (n : node) (m : nmeta) : node :=
   {| n_path := n_path n; n_uid := n_uid n; n_kind := n_kind n; n_flag := n_flag n; n_parents := n_parents n;
      n_memmap := n_memmap n; n_meta := m; n_cache := n_cache n |}.
 
+(* _td.py:2308 names setter and _rename_subtds.  Names are lists with "None" for an unnamed dim; all-"None" = no names.
+   value None (or all None): the node and its DIRECT nested nodes lose their names (_erase_names is not recursive);
+   value V: every nested node, recursively, gets V followed by its own names beyond len(V) (rename_) *)
+Definition names_list (m : nmeta) : list string :=
+  match m_names m with Some l => l | None => repeat "None" (List.length (m_bs m)) end.
+Definition norm_names (l : list string) : option (list string) :=
+  if forallb (String.eqb "None") l then None else Some l.
+Definition set_names (s : state) (p : path) (names : option (list string)) : state :=
+  let v := match names with Some l => norm_names l | None => None end in
+  upd_nodes s (fun x =>
+    match v with
+    | None => if path_eqb (n_path x) p || is_child p (n_path x)
+              then with_meta x {| m_bs := m_bs (n_meta x); m_names := None; m_dev := m_dev (n_meta x) |} else x
+    | Some l => if is_prefix p (n_path x)
+                then with_meta x {| m_bs := m_bs (n_meta x);
+                                    m_names := norm_names (l ++ skipn (List.length l) (names_list (n_meta x)));
+                                    m_dev := m_dev (n_meta x) |}
+                else x
+    end).
+
 Definition is_node_path (s : state) (p : path) : bool := match find_node s p with Some _ => true | None => false end.
 
 Definition step (fx : fixes) (hooked : bool) (s : state) (o : op) : state * outcome :=
@@ -752,10 +772,8 @@ Definition step (fx : fixes) (hooked : bool) (s : state) (o : op) : state * outc
       match find_node s p with
       | None => (s, NoSuchTarget)
       | Some n =>
-          (* base.py names setter: accepted under lock; the names go down to every nested node.
-             _lazy.py:474: the setter of a lazy stack carries @erase_cache *)
-          let s1 := upd_nodes s (fun x => if is_prefix p (n_path x)
-                                          then with_meta x {| m_bs := m_bs (n_meta x); m_names := names; m_dev := m_dev (n_meta x) |} else x) in
+          (* _td.py names setter: accepted under lock; see [set_names].  _lazy.py:474: the setter of a lazy stack carries @erase_cache *)
+          let s1 := set_names s p names in
           let s2 := match n_kind n with
                     | NLAZY => upd_nodes s1 (fun x => if path_eqb (n_path x) p then with_cache x [] else x)
                     | NTD => s1 end in
@@ -768,12 +786,14 @@ Definition step (fx : fixes) (hooked : bool) (s : state) (o : op) : state * outc
           match n_kind n with
           | NLAZY => (s, RaisedOther)
           | NTD =>
-              let s1 := upd_nodes s (fun x => if path_eqb (n_path x) p
-                                              then with_meta x {| m_bs := bs;
-                                                                  m_names := match m_names (n_meta x), bs with
-                                                                             | Some l, _ :: _ => Some (firstn (List.length bs) l)
-                                                                             | _, _ => None end;
-                                                                  m_dev := m_dev (n_meta x) |} else x) in
+              (* base.py:2914 _batch_size_setter (shrinking): new size; if the node has names they are cut to the new rank and
+                 re-assigned through the names setter *)
+              let s0 := upd_nodes s (fun x => if path_eqb (n_path x) p
+                                              then with_meta x {| m_bs := bs; m_names := None; m_dev := m_dev (n_meta x) |} else x) in
+              let s1 := match m_names (n_meta n) with
+                        | None => s0
+                        | Some l => set_names s0 p (Some (firstn (List.length bs) l))
+                        end in
               ((if fix_meta fx then erase_around s1 p else s1), Done)
           end
       end
